@@ -8,3 +8,4 @@ import InToto.Properties.C15
 #print axioms InToto.C15.rules_never_panic
 #print axioms InToto.C15.inspections_never_panic
 #print axioms InToto.C15.empty_rule_is_error
+#print axioms InToto.C15.facts_steps_have_links_guard_position
